@@ -21,6 +21,7 @@ fn cfgs() -> Vec<Entry> {
     c!(v, true,"general",B1D,TrackFence<true>,dyn Cloneable);
     c!(v, true,"fixed",W8D,Stack<32>,dyn Cloneable);
     c!(v, true,"fixed",B1D,StackN<3, 3>,dyn Cloneable);
+    c!(v, true,"fixed",W8D,StackN<3, 40>,dyn Cloneable); // slack: SIZE / N is not the element size
     c!(v, true,"fixed",W8D,TrackFixed<4>,dyn Cloneable);
     v
 }
